@@ -83,6 +83,14 @@ def generate():
     src.append('  printf("sizeof htrans %zu\\n", sizeof(HyphenationTrans));')
     src.append('  printf("sizeof widechar %zu\\n", sizeof(widechar));')
     src.append('  printf("sizeof data %zu\\n", sizeof(TranslationTableData));')
+    dm = re.search(r"dotMapping\[\]\s*=\s*\{(.*?)\};", utils, re.S)
+    if not dm:
+        raise RuntimeError("dotMapping not found")
+    pairs = re.findall(r"\{\s*(LOU_DOT_\d+)\s*,\s*'(.)'\s*\}", dm.group(1))
+    if len(pairs) < 8:
+        raise RuntimeError("dotMapping entries not found")
+    for nm, ch in pairs:
+        src.append('  printf("dotmap %%llu %d\\n", (unsigned long long)(%s));' % (ord(ch), nm))
     src.append("  for (int c = 0; c < 256; c++) printf(\"fallback %d %u\\n\", c, (unsigned)probe_fallback((widechar)c));")
     src.append("  return 0; }")
     text = "\n".join(src) + "\n"
@@ -104,10 +112,13 @@ def generate():
     vals = {}
     sizes = {}
     fallback = [None] * 256
+    dotmap = []
     order = {}
     for line in open(outtxt):
         p = line.split()
-        if p[0] == "fallback":
+        if p[0] == "dotmap":
+            dotmap.append((int(p[1]), int(p[2])))
+        elif p[0] == "fallback":
             fallback[int(p[1])] = int(p[2])
         elif p[0] == "sizeof":
             sizes[p[1]] = int(p[2])
@@ -134,6 +145,9 @@ def generate():
     L.append("")
     L.append("/-- `_lou_charToFallbackDots(c)` for c = 0..255, computed by the current source text of the function -/")
     L.append("def fallbackDots : List Nat := [" + ", ".join(str(x) for x in fallback) + "]")
+    L.append("")
+    L.append("/-- `dotMapping[]` of utils.c: (dot bit, character used when printing dot numbers) in table order -/")
+    L.append("def dotMapping : List (Nat × Nat) := [" + ", ".join("(%d, %d)" % x for x in dotmap) + "]")
     L.append("")
     L.append("end Lou.Gen")
     new = "\n".join(L) + "\n"
